@@ -209,6 +209,9 @@ type exchClient struct {
 	connect   func() error
 	connected bool
 	hooks     bool
+	// responses returned by earlier calls on this client and what they encoded to when they were returned
+	kept     []packet.Response
+	keptThen [][]int
 }
 
 func newExchClient(kind string, hooks bool, timeoutMs int, serialNil bool) *exchClient {
@@ -220,17 +223,27 @@ func newExchClient(kind string, hooks bool, timeoutMs int, serialNil bool) *exch
 	}
 	timeout := time.Duration(timeoutMs) * time.Millisecond
 	switch kind {
-	case "tcp", "rtu":
+	case "tcp", "rtu", "tcpgen":
 		conf := modbus.ClientConfig{ReadTimeout: timeout, WriteTimeout: timeout,
 			DialContextFunc: func(ctx context.Context, address string) (net.Conn, error) { return ec.conn, nil }}
 		if hk != nil {
 			conf.Hooks = hk
 		}
 		var nc *modbus.Client
-		if kind == "tcp" {
+		switch kind {
+		case "tcp":
 			nc = modbus.NewTCPClientWithConfig(conf)
-		} else {
+		case "rtu":
 			nc = modbus.NewRTUClientWithConfig(conf)
+		default:
+			// the configurable client with the TCP functions: the parser is wrapped so that "a reply is handed to
+			// the parser" becomes an observable event
+			conf.AsProtocolErrorFunc = packet.AsTCPErrorPacket
+			conf.ParseResponseFunc = func(data []byte) (packet.Response, error) {
+				ec.conn.log.add(Ev{"ev": "parse", "bytes": ints(data)})
+				return packet.ParseTCPResponse(data)
+			}
+			nc = modbus.NewClient(conf)
 		}
 		ec.cl = nc
 		ec.connect = func() error { return nc.Connect(context.Background(), "verif:502") }
@@ -260,7 +273,7 @@ func (ec *exchClient) run(c *exchCase, timeoutMs int) []Ev {
 	lg := &exchLog{}
 	a := c.Req
 	a.Framing = "tcp"
-	if c.Client != "tcp" {
+	if c.Client != "tcp" && c.Client != "tcpgen" {
 		a.Framing = "rtu"
 		a.Tid = 0
 	}
@@ -329,6 +342,8 @@ func (ec *exchClient) run(c *exchCase, timeoutMs int) []Ev {
 			ret["kind"] = "ok"
 			if r.resp != nil {
 				ret["reenc"] = ints(r.resp.Bytes())
+				ec.kept = append(ec.kept, r.resp)
+				ec.keptThen = append(ec.keptThen, ints(r.resp.Bytes()))
 			} else {
 				ret["kind"] = "panic"
 				ret["msg"] = "nil response with nil error"
@@ -376,6 +391,27 @@ func (ec *exchClient) run(c *exchCase, timeoutMs int) []Ev {
 		ret["kind"] = "hang"
 		ret["ms"] = 10000
 	}
+	// a response handed to an earlier caller must not change when the client is used again
+	then, now := [][]int{}, [][]int{}
+	if ret["kind"] != "hang" {
+		n := len(ec.kept)
+		if ret["kind"] == "ok" {
+			n-- // the one just returned
+		}
+		for i := 0; i < n; i++ {
+			func() {
+				defer func() {
+					if recover() != nil {
+						now = append(now, []int{-1})
+					}
+				}()
+				b := ints(ec.kept[i].Bytes())
+				now = append(now, b)
+			}()
+			then = append(then, ec.keptThen[i])
+		}
+	}
+	ret["keptThen"], ret["keptNow"] = then, now
 	lg.mu.Lock()
 	evs := append([]Ev{}, lg.evs...)
 	lg.mu.Unlock()
